@@ -352,3 +352,12 @@ def reuse_encryptor(vc):
             if not out.returned or out.value != want:
                 bad.append((n, op, repr(out.exc) if not out.returned else "different payload"))
     vc.prove("every-call-behaves-like-the-first-call-on-a-fresh-object", not bad, repr(bad[:3]))
+
+
+# the cipher is seen through its contract in the proofs above (ENC / DEC / MAC as functions of key, IV and zero-padded data: the auth-block frame is encrypted by the registered adapter);
+# that contract - the registered adapter IS zero-padded AES-128-CBC with the given or all-zero IV, its MAC the last block, and
+# it refuses empty / ragged input with ValueError - is proved under C16 and discharged under this property too
+from pyvc.harness import reuse as _reuse_aes  # noqa: E402
+for _n in (1, 16, 17):
+    _reuse_aes("C16/adapter[len=%d]" % _n, "C08/AES128Proxy=zero-padded-CBC[len=%d]" % _n)
+_reuse_aes("C16/adapter.bad-lengths", "C08/AES128Proxy.bad-lengths=>ValueError")
